@@ -8,6 +8,8 @@ import (
 	"strconv"
 	"strings"
 
+	"golang.org/x/perf/benchfmt"
+	"golang.org/x/perf/benchproc"
 	"golang.org/x/perf/internal/verifh/hx"
 )
 
@@ -409,6 +411,59 @@ func genSepCollide(r *hx.Rand) Scenario {
 	return sc
 }
 
+// bigIdentity: ONE case with many distinct keys: project n distinct tuples (name × file key
+// `commit`), keep the Keys, project all of them again. Every second Key must BE the first one
+// (key_eq_iff), so grouping by Key gives exactly n groups. Only probes are printed, in the
+// vocabulary of the driver's `big` case: every probe pair is "0-1" (expected bit 1 = "the two Keys
+// of this tuple are equal"), first = number of tuples whose Keys differ (expected 0), second = 1
+// iff a map keyed by Key has n entries, last = number of groups − 1 (expected n − 1).
+func bigIdentity(id, n int, r *hx.Rand) {
+	var pp benchproc.ProjectionParser
+	p, err := pp.Parse(".fullname,commit", nil)
+	if err != nil {
+		panic(err)
+	}
+	mk := func(i int) *benchfmt.Result {
+		return &benchfmt.Result{Name: benchfmt.Name("B/i=" + strconv.Itoa(i%97) + "-8"),
+			Config: []benchfmt.Config{{Key: "commit", Value: []byte("c" + strconv.Itoa(i)), File: true}}}
+	}
+	first := make([]benchproc.Key, n)
+	groups := map[benchproc.Key]int{}
+	for i := 0; i < n; i++ {
+		first[i] = p.Project(mk(i))
+		groups[first[i]]++
+	}
+	bad := 0
+	same := make([]bool, n)
+	for i := 0; i < n; i++ {
+		k := p.Project(mk(i))
+		groups[k]++
+		same[i] = k == first[i]
+		if !same[i] {
+			bad++
+		}
+	}
+	probes := []int{0, 1, 511, 512, 513, n / 2, n - 2, n - 1}
+	for i := 0; i < 12; i++ {
+		probes = append(probes, r.Intn(n))
+	}
+	bits := make([]byte, len(probes))
+	ps := make([]string, len(probes))
+	for i, t := range probes {
+		ps[i] = "0-1"
+		bits[i] = '0'
+		if same[t] {
+			bits[i] = '1'
+		}
+	}
+	second := 0
+	if len(groups) == n {
+		second = 1
+	}
+	hx.Printf("case %d big=%d pairs=%s s=1 tag=bigid\n", id, n, strings.Join(ps, ","))
+	hx.Printf("sobs %d probe=%s first=%d second=%d last=%d\n", id, string(bits), bad, second, len(groups)-1)
+}
+
 func main() {
 	defer hx.Flush()
 	r := hx.NewRand(8)
@@ -424,6 +479,10 @@ func main() {
 	for _, sc := range corpusScenarios("C08") {
 		emit(sc)
 	}
+	if shard == 0 {
+		bigIdentity(id, hx.N(600, 2100), shuf)
+	}
+	id++
 	n := hx.N(150, 4000)
 	for i := 0; i < n; i++ {
 		b := genBase(r)
